@@ -52,25 +52,28 @@ PfokLevels == << <<638, 130>>, <<702, 136>>, <<766, 141>>, <<862, 149>>, <<958, 
                  <<2046, 221>>, <<2174, 225>>, <<2334, 234>>, <<2462, 240>>, <<2622, 246>>, <<2782, 253>>, <<2942, 259>> >>
 LevelR(tab, l) == FoldLeft(LAMBDA acc, e : IF e[1] = l THEN e[2] ELSE acc, 0, tab)          \* 0: l is not a level
 ZiOk(zi) == \A i \in 1..Len(zi) : zi[i] >= 1 /\ zi[i] <= 65256
-\* a chain c[1], ..., c[t+1] in {17..32}, then zeros; link(x, next) relates consecutive elements.
-\* Entries are naturals < 2^31 (larger logged values are clipped by the driver to 2^31 - 1, which no rule accepts).
+\* a chain c[1], ..., c[t] with c[t] in {17..32}, then zeros; link(x, next) relates consecutive elements.
+\* x <= 2 next in every link and at most 20 elements: every element of a valid chain is <= 32 * 2^19 = 2^24, so larger
+\* entries (the driver clips logged values at 2^31 - 1) make the chain invalid and the arithmetic below cannot overflow.
+ChainSmall(c) == \A i \in 1..Len(c) : c[i] >= 0 /\ c[i] <= 16777216
 ChainEnd(c) == FoldLeft(LAMBDA acc, i : IF acc = 0 /\ c[i] <= 32 THEN i ELSE acc, 0, Rng(1, Len(c)))
 ChainOk(c, link(_, _)) ==
-  LET t == ChainEnd(c)
-  IN /\ t >= 1
-     /\ c[t] >= 17
-     /\ \A i \in 1..(t - 1) : link(c[i], c[i + 1])
-     /\ \A i \in (t + 1)..Len(c) : c[i] = 0
-\* 5 y / 4 + 4 < x <= 2 y   (floor(5y/4) + 4 < x  <=>  5 y < 4 x - 16; x - 2y <= 0 written without overflow)
-LinkD(x, y) == y <= 400000000 /\ 5 * y < 4 * Min2(x, 500000000) - 16 /\ x - y <= y
+  /\ ChainSmall(c)
+  /\ LET t == ChainEnd(c)
+     IN /\ t >= 1
+        /\ c[t] >= 17
+        /\ \A i \in 1..(t - 1) : link(c[i], c[i + 1])
+        /\ \A i \in (t + 1)..Len(c) : c[i] = 0
+\* 5 y / 4 + 4 < x <= 2 y   (floor(5y/4) + 4 < x  <=>  5 y < 4 x - 16 for integers)
+LinkD(x, y) == 5 * y < 4 * x - 16 /\ x <= 2 * y
 \* 5 y / 4 < x <= 2 y
-LinkR(x, y) == y <= 400000000 /\ 5 * y < 4 * Min2(x, 500000000) /\ x - y <= y
+LinkR(x, y) == 5 * y < 4 * x /\ x <= 2 * y
 Stb99SeedVal(s) ==
   LET r == LevelR(Stb99Levels, s.l)
   IN /\ r # 0
      /\ ZiOk(s.zi)
      /\ ChainOk(s.di, LinkD) /\ ChainOk(s.ri, LinkR)
-     /\ s.l <= 2 * s.di[1] /\ s.di[1] <= 300000000 /\ 8 * s.di[1] <= 7 * s.l - 8 * r    \* l/2 <= di[0] <= 7l/8 - r
+     /\ s.l <= 2 * s.di[1] /\ 8 * s.di[1] <= 7 * s.l - 8 * r         \* l/2 <= di[0] <= 7l/8 - r
      /\ s.ri[1] = r
 AllZero(c) == \A i \in 1..Len(c) : c[i] = 0
 HalfChain(x0, len) ==          \* x0, x0/2 + 1, ... down to the first element in {17..32}, padded with zeros to len
@@ -112,7 +115,7 @@ MovOk(p, q, k) ==
 PrimeHolds(n, cert) == IsPrimeC(n, cert)
 PrimeFails(n, C) ==
   IF Decidable(n) THEN ~IsPrimeMR(n)
-  ELSE \/ ("f" \in DOMAIN C /\ SmallFactorWitness(n, C.f))
+  ELSE \/ ("sf" \in DOMAIN C /\ SmallFactorWitness(n, C.sf))
        \/ ("fo" \in DOMAIN C /\ FactorWitness(n, N(C.fo)))
        \/ ("w" \in DOMAIN C /\ MRWitness(n, C.w))
 CertOf(C, k) == IF k \in DOMAIN C THEN C[k] ELSE <<>>
